@@ -251,6 +251,12 @@ fn gen(g: &mut G, thorough: bool) -> Plan {
             }
             p.scripts = vec![sc];
             p.rereads = g.below(3) as usize;
+            // the caller may lose interest while the peer is silent: the response is dropped after a few
+            // reads, with data unread and the peer stalled (drawn last: earlier tapes keep their meaning)
+            if g.chance(1, 4) {
+                p.drop_after_calls = Some(g.usize_below(4));
+                g.probe("response-dropped-while-the-peer-is-stalled");
+            }
         }
         Family::RedirectSlow => {
             let t = *g.pick(&[200u64, 1000, 5000]);
@@ -300,6 +306,8 @@ struct Obs {
     calls: Vec<Call>,
     output: Vec<u8>,
     t_drop: u64,
+    /// simulated time the drop of the response itself took
+    drop_took: u64,
     final_url: String,
 }
 
@@ -428,8 +436,10 @@ fn caller(p: &Plan) -> Obs {
             break;
         }
     }
+    let t_before_drop = attosim::now_ns();
     drop(resp);
     o.t_drop = attosim::now_ns();
+    o.drop_took = o.t_drop - t_before_drop;
     o
 }
 
@@ -593,6 +603,13 @@ fn oracle(p: &Plan, o: &Obs, h: &History, seen: &Seen, g: &mut G) -> Verdict {
     }
     if h.deadlock {
         return violation(format!("thread-leak:{}", tag), "threads blocked forever after the caller finished");
+    }
+    // dropping the response is prompt: it never waits for the peer (zero simulated time)
+    if o.drop_took > 0 {
+        return violation(
+            format!("drop-waited-for-the-peer:{}", tag),
+            format!("dropping the response at t={}ms took {} ms of simulated time (T={:?}ms R={}ms)", (o.t_drop - o.drop_took) / NS_PER_MS, o.drop_took / NS_PER_MS, p.t_ms, p.r_ms),
+        );
     }
     // (b) every transport read honours the read timeout exactly
     let r_ns = p.r_ms * NS_PER_MS;
